@@ -19,6 +19,8 @@ def menu(nums):
     for n in nums:
         evs.append(("app", n, "N"))
     for n in nums:
+        evs.append(("app", n, "X"))  # application message whose on_message callback raises
+    for n in nums:
         evs.append(("hb", n))
         evs.append(("tr", n))
         evs.append(("app", n, "Y"))
@@ -45,7 +47,8 @@ def frame_of(ev, S, T, uid):
         return refs.frame("A", n, T, S, [(98, 0), (108, 100000)])
     if k == "app":
         extra = [(43, "Y"), (122, "20240101-00:00:00.000")] if ev[2] == "Y" else []
-        return refs.frame("D", n, T, S, [(11, f"id{uid}"), (55, "X")], extra_header=extra)
+        cid = f"boom{uid}" if ev[2] == "X" else f"id{uid}"
+        return refs.frame("D", n, T, S, [(11, cid), (55, "X")], extra_header=extra)
     if k == "hb":
         return refs.frame("0", n, T, S)
     if k == "tr":
@@ -68,6 +71,7 @@ class Sim:
         _, role, variant, S, T = root
         self.root = root
         self.w = World1(role, S=S, T=T)
+        self.w.c.raise_filter = lambda m: str(m.get(11, "")).startswith("boom")
         self.w.connect()
         self.outstanding = None  # (E0, n0) of the ResendRequest the endpoint has out
         self.last_delivered = 0
